@@ -312,12 +312,12 @@ def run_case(case_no, spec, rng, res, use_numba, grid, ScalarExpression, TensorE
 def run_fixed_cases(res, use_numba, ScalarExpression):
     if use_numba and res.spec.get("known_finding_probe"):
         # fixed witness of known finding F20 (reported on every run)
-        e = ScalarExpression("abs(exp(sqrt(y)))", signature=["y"])
+        e = ScalarExpression("abs(exp(sqrt(y)))", signature=["x", "y"])
         try:
-            e.get_function("numba")(np.array([0.5, 1.5]))
+            e.get_function("numba", single_arg=True)(np.array([[0.5, 1.5], [0.7, 1.2]]))
         except NotImplementedError as exc:
             if "layout 'A'" in str(exc):
-                res.violation("numba function with array arguments raised NotImplementedError", {"expression": "abs(exp(sqrt(y)))", "sympy_form": str(e._sympy_expr)},
+                res.violation("numba function with single_arg=True raised NotImplementedError", {"expression": "abs(exp(sqrt(y)))", "sympy_form": str(e._sympy_expr)},
                               mechanism="numba-array-re-im-layout")
     # ---- indexed variables and coordinate aliases (fixed small set) ---------------------------------------
     for text, sig, kw, args, want in [
